@@ -57,6 +57,7 @@ type UpstreamSpec struct {
 	FlushInterval         time.Duration
 	PreserveHost          bool
 	SkipRequestSigning    bool
+	TLSSkipVerify         bool // for upstreams given as To: "https://host:port" (self-signed test servers)
 	ProviderSlug          string
 	HMACKey               string // "sha256:secret" => SSO_CONFIG_<SERVICE>_SIGNING_KEY
 }
@@ -184,6 +185,9 @@ func optionsMap(u UpstreamSpec) map[string]interface{} {
 	}
 	if u.SkipRequestSigning {
 		o["skip_request_signing"] = true
+	}
+	if u.TLSSkipVerify {
+		o["tls_skip_verify"] = true
 	}
 	if u.ProviderSlug != "" {
 		o["provider_slug"] = u.ProviderSlug
